@@ -67,6 +67,9 @@ def cases(tier, seed):
         for a, b in itertools.permutations(["None", "0", "1", "0.6+0.8j"], 2):
             out.append(dict(fam="seeded", dev=d, seed_value=a, value=b, drive="both"))
     # histories: several solves on the *same* device / mesh object with different terminal values
+    for d in devs[:2]:
+        for hist in (["0", "0"], ["1", "0"], ["None", "0.6+0.8j"]):
+            out.append(dict(fam="seq", dev=d, history=hist, drive="tdep", remesh=True))
     seq_vals = ["0", "None", "1"] if quick else ["0", "None", "1", "0.6+0.8j"]
     for d in devs[:2]:
         for hist in itertools.product(seq_vals, repeat=2):
@@ -129,6 +132,9 @@ def run_seq(case):
     res.key = case_key(case)
     dev = zoo.device(case["dev"], memo=False)  # fresh Device and Mesh objects: the history starts clean
     for i, val in enumerate(case["history"]):
+        if i and case.get("remesh"):
+            # the same device object is meshed again between the solves (finer mesh: other site numbering, other terminal sites)
+            dev.make_mesh(max_edge_length=0.62 * dev.layer.coherence_length, smooth=0)
         sub = dict(fam="pin", dev=case["dev"], value=val, drive=case["drive"], screening=False)
         r = run_pin(sub, dev=dev, path=f"seq{i}.h5")
         for v in r.violations:
